@@ -306,6 +306,28 @@ class StereoCondensedReactionGraph(StereoMolGraph, CondensedReactionGraph):
 
         return relabeled_scrg
 
+    def subgraph(self, atoms: Iterable[AtomId]) -> Self:
+        """Returns a subgraph of the graph with the given atoms, the
+        stereo information and the stereo changes all of whose atoms are
+        part of the subgraph
+
+        :param atoms: Atoms to be used for the subgraph
+        :return: Subgraph
+        """
+        atoms = set(atoms)
+        new_graph = super().subgraph(atoms)
+        for changes, new_changes in (
+            (self._atom_stereo_change, new_graph._atom_stereo_change),
+            (self._bond_stereo_change, new_graph._bond_stereo_change),
+        ):
+            for key, change_dict in changes.items():
+                for change, stereo in change_dict.items():
+                    if stereo is not None and all(
+                        a in atoms for a in stereo.atoms if a is not None
+                    ):
+                        new_changes[key][change] = stereo
+        return new_graph
+
     def reactant(self, keep_attributes: bool = True) -> StereoMolGraph:
         """
         Returns the reactant of the reaction
